@@ -685,3 +685,85 @@ Proof.
   - exact I.
   - exact I.
 Qed.
+
+(** * %+ : the RFC 3339 item renders as its documented expansion %Y-%m-%dT%H:%M:%S%.f%:z *)
+Definition iso_year_ok (y : Z) : bool :=
+  fres_eqb (let+ a := write_hundreds (as_u8 (Z.quot y 100)) in
+            let+ b := write_hundreds (as_u8 (Z.rem y 100)) in fok (a ++ b))
+           (pad_num DZero 4 false y).
+Lemma iso_year_sweep : forall_range iso_year_ok 0 10000 = true.
+Proof. vm_compute. reflexivity. Qed.
+
+Lemma frac_auto_bytes n : 0 <= n < 1000000000 ->
+  (if n =? 0 then []
+   else if Z.rem n 1000000 =? 0 then 46 :: fmt_int false true 3 (Z.quot n 1000000)
+   else if Z.rem n 1000 =? 0 then 46 :: fmt_int false true 6 (Z.quot n 1000)
+   else 46 :: fmt_int false true 9 n)
+  = (if n =? 0 then []
+     else if n mod 1000000 =? 0 then 46 :: frac_digits n 3
+     else if n mod 1000 =? 0 then 46 :: frac_digits n 6
+     else 46 :: frac_digits n 9).
+Proof.
+  intros Hn. unfold frac_digits.
+  change (10 ^ (9 - 3)) with 1000000. change (10 ^ (9 - 6)) with 1000. change (10 ^ (9 - 9)) with 1.
+  replace (Z.rem n 1000000) with (n mod 1000000) by lia.
+  replace (Z.rem n 1000) with (n mod 1000) by lia.
+  replace (Z.quot n 1000000) with (n / 1000000) by lia.
+  replace (Z.quot n 1000) with (n / 1000) by lia.
+  rewrite Z.div_1_r. rewrite !fmt_int_pad by lia. reflexivity.
+Qed.
+
+Theorem render_iso_spec : forall a sv, args_view a sv ->
+  claim (render_all sv (tokens iso_expansion) []) (format_fixed a F_RFC3339).
+Proof.
+  intros [ad at_ ao] [dn sod nano leap off utc unix] [Hd Ht Ho Hu].
+  cbn [fa_date fa_time fa_off sv_dn sv_sod sv_nano sv_leap sv_off sv_utc sv_unix] in *.
+  change (tokens iso_expansion) with
+    [KNum NYear DZero; KText [45]; KNum NMonth DZero; KText [45]; KNum NDay DZero; KText [84];
+     KNum NHour DZero; KText [58]; KNum NMinute DZero; KText [58]; KNum NSecond DZero;
+     KFix TFracAuto; KFix TOffColon].
+  unfold format_fixed. cbn [fa_date fa_time fa_off].
+  cbn [render_all render_tok render_num render_fix width_documented negb num_value num_width
+       sv_dn sv_sod sv_nano sv_leap sv_off sv_utc sv_unix].
+  destruct ad as [d|], dn as [dn|]; try contradiction; [|cbn [claim]; reflexivity].
+  destruct Hd as [Hdn [Hy Hyr] (yy & m & dd & Hymd & Hm & Hdd & Hmr & Hddr) _ _ _ _].
+  rewrite Hymd. cbv beta iota.
+  destruct at_ as [t|], sod as [s|]; try contradiction; [|cbn [claim]; reflexivity].
+  destruct (time_fields _ _ _ _ Ht) as (Hh & Hmi & Hse & Hq & Hrm). pose proof Ht as (Hts & Hsr & Hnr & Hf).
+  cbv beta iota.
+  destruct ao as [[name o]|], off as [o'|]; try contradiction; [|cbn [claim]; reflexivity].
+  destruct Ho as (-> & Hor & _). cbn [claim].
+  unfold write_rfc3339_auto. cbn [DateTime.nd_date DateTime.nd_time].
+  rewrite Hy, Hm, Hdd. cbv [bind].
+  (* year *)
+  assert (EY : (if (0 <=? year_of_dn dn) && (year_of_dn dn <=? 9999)
+                then let+ a := write_hundreds (as_u8 (Z.quot (year_of_dn dn) 100)) in
+                     let+ b := write_hundreds (as_u8 (Z.rem (year_of_dn dn) 100)) in fok (a ++ b)
+                else fok (fmt_int true true 5 (year_of_dn dn)))
+               = fok (pad_num DZero 4 ((year_of_dn dn <? 0) || (9999 <? year_of_dn dn)) (year_of_dn dn))).
+  { set (y := year_of_dn dn) in *. destruct ((0 <=? y) && (y <=? 9999)) eqn:E.
+    - replace ((y <? 0) || (9999 <? y)) with false by lia. apply fres_eqb_eq.
+      exact (forall_range_spec _ _ _ iso_year_sweep y ltac:(lia)).
+    - replace ((y <? 0) || (9999 <? y)) with true by lia.
+      pose proof (write_n_spec 4 y DZero true ltac:(lia)) as W. unfold write_n in W. cbn [pad_of] in W.
+      unfold add_usize in W. rewrite chk_in in W by reflexivity. cbv [bind] in W. exact W. }
+  rewrite EY. cbv [fseq bind fok].
+  rewrite !as_u8_small by lia. rewrite !write_hundreds_spec by lia. cbv [bind fok fseq].
+  unfold Time.hms in *. unfold Time.hour, Time.minute, Time.second, Time.hms in Hh, Hmi, Hse.
+  rewrite Hh, Hmi, Hse.
+  assert (EL : (if Time.nanosecond t >=? 1000000000
+                then let* s0 := add_u32 (s mod 60) 1 in let* n := sub_u32 (Time.nanosecond t) 1000000000 in Val (s0, n)
+                else Val (s mod 60, Time.nanosecond t))
+               = Val (s mod 60 + (if leap then 1 else 0), nano)).
+  { unfold Time.nanosecond. rewrite Hf. destruct leap.
+    - replace (nano + 1000000000 >=? 1000000000) with true by lia.
+      unfold add_u32, sub_u32. rewrite chk_u32 by lia. cbv [bind]. rewrite chk_u32 by lia. cbv [bind].
+      f_equal. f_equal. lia.
+    - replace (nano + 0 >=? 1000000000) with false by lia. f_equal. f_equal; lia. }
+  cbv [bind] in EL. rewrite EL. cbv beta iota.
+  rewrite !as_u8_small by (destruct leap; lia).
+  rewrite !write_hundreds_spec by (destruct leap; lia). cbv beta iota.
+  destruct (offset_items_spec o' Hor) as (_ & H2 & _). rewrite H2. cbv beta iota.
+  rewrite frac_auto_bytes by lia.
+  unfold fok. f_equal. f_equal. cbn [app]. rewrite <- !app_assoc. cbn [app]. reflexivity.
+Qed.
